@@ -1,0 +1,12 @@
+//go:build verif
+
+package metrics
+
+// Contracts for the govc verification-condition generator (see /verif/DESIGN.md, section 4.10).
+// This file is comment-only: it contains no declarations and changes no compiled code.
+
+// Rely/guarantee discipline of the two extremum cells: every atomic update by any goroutine may only move the
+// minimum down (or set it from the "unset" marker -1) and the maximum up; between two steps of one goroutine the
+// others may have done any number of such updates.
+//@ rg Metrics.minQuerySize guarantee new <= old || old == -1 rely new <= old || old == -1
+//@ rg Metrics.maxQuerySize guarantee new >= old rely new >= old
